@@ -734,5 +734,74 @@ def rule_ledger(ctx):
     return r
 
 
-RULES = [rule_ledger, rule_cap, rule_sizewrites, rule_own, rule_siblings, rule_samecap, rule_topo, rule_range, rule_steps, rule_surv,
+def rule_spanorder(ctx):
+    """(seed C20_10) `GreedySpan.get_ssa_path` collects absorptions `(i, j)` ("i is absorbed into j") in *span*
+    order — growing outwards from the start region — and reverses the whole list once at the end, so that the
+    outermost tensors are contracted first.  The merges of the start region itself come from a greedy sub-path,
+    i.e. in *execution* order; they must end up in execution order, so that segment is reversed once more before
+    the span grows (two reversals in total), the span segment exactly once.  With the wrong parity a node is
+    used after it was absorbed and the returned ids are stale ("tree seems to be over complete")."""
+    r = RuleResult("C20-SPANORDER", "absorptions are replayed in an order in which no absorbed node is used again", 2)
+    gs = ctx.p.cls("cotengra/pathfinders/path_compressed_greedy.py", "GreedySpan")
+    C.require(gs is not None, "GreedySpan not found")
+    f = gs.methods.get("get_ssa_path")
+    C.require(f is not None, "GreedySpan.get_ssa_path not found")
+    fl = ctx.flow(f)
+    cfg = fl.cfg
+    parents = f.module.parents
+    # the list that is finally replayed: iterated by the loop that builds the returned path
+    seqn = None
+    for n in walk_local(f.node):
+        if isinstance(n, ast.For) and isinstance(n.iter, ast.Name) and isinstance(n.target, ast.Tuple) and \
+                any(isinstance(x, ast.Call) and isinstance(x.func, ast.Attribute) and x.func.attr == "append" for x in ast.walk(n)):
+            seqn = n.iter.id
+            replay = n
+    C.require(seqn is not None, "GreedySpan.get_ssa_path: replay loop not found")
+    revs = [cfg.containing(n, parents).id for n in walk_local(f.node) if isinstance(n, ast.Call)
+            and isinstance(n.func, ast.Attribute) and n.func.attr == "reverse" and dotted(n.func.value) == seqn]
+    rn = cfg.node_of(replay)
+    apps = [n for n in walk_local(f.node) if isinstance(n, ast.Call) and isinstance(n.func, ast.Attribute)
+            and n.func.attr == "append" and dotted(n.func.value) == seqn]
+    C.require(apps, "GreedySpan.get_ssa_path: no absorption is recorded")
+    n_dec = 0
+    for a in apps:
+        st = C.enclosing_stmt(f, a)
+        lps = C.enclosing_loops(f, st)
+        kind = None
+        for lp in lps:
+            if isinstance(lp, ast.For):
+                src = C.unparse(lp.iter)
+                defs = ctx.r.local_assignments(f).get(src, []) if isinstance(lp.iter, ast.Name) else []
+                if any("optimize" in C.unparse(d) or "ssa_path" in C.unparse(d) for d in defs) or "path" in src:
+                    kind = "execution"
+            elif isinstance(lp, ast.While):
+                kind = kind or "span"
+        if kind is None:
+            continue
+        n_dec += 1
+        an = cfg.containing(a, parents)
+        # reversals that every path from this append to the replay loop passes, outside the append's own loop
+        own = {id(x) for lp in lps for x in ast.walk(lp)}
+        cnt = 0
+        for rv in revs:
+            node_ast = cfg.nodes[rv].ast
+            if id(node_ast) in own:
+                continue
+            if cfg.all_paths_pass(an.id, [rv], dst=rn.id):
+                cnt += 1
+        want = 2 if kind == "execution" else 1
+        k = ctx.key(f, "C20-SPANORDER", kind)
+        if cnt == want:
+            r.ok(k, C.loc(f, a), f"{kind}-order absorptions pass {cnt} reversal(s) before they are replayed")
+        else:
+            r.violation(k, C.loc(f, a), f"absorptions recorded in {kind} order pass {cnt} reversal(s) of `{seqn}` before the replay, "
+                        f"expected {want}: the segment is replayed backwards, a node is used after it was absorbed and the "
+                        f"returned path re-uses a consumed id (no complete tree for an output carried by three or more tensors)"
+                        if kind == "execution" else
+                        f"absorptions recorded in span order pass {cnt} reversal(s), expected 1")
+    C.require(n_dec >= 2, "GreedySpan.get_ssa_path: execution-order and span-order segments not both recognised")
+    return r
+
+
+RULES = [rule_spanorder, rule_ledger, rule_cap, rule_sizewrites, rule_own, rule_siblings, rule_samecap, rule_topo, rule_range, rule_steps, rule_surv,
          rule_freshstats, rule_reset]
